@@ -147,6 +147,11 @@ func NewLockAn(w *World) *LockAn {
 			var acc LS
 			for _, cs := range la.sites[f] {
 				var at LS
+				if f.Signature.Recv() != nil && len(cs.In.Common().Args) > 0 && isFreshBase(cs.In.Common().Args[0]) {
+					if _, isGo := cs.In.(*ssa.Go); !isGo {
+						continue // constructor call on a not-yet-shared object
+					}
+				}
 				if _, isGo := cs.In.(*ssa.Go); isGo {
 					at = LS{}
 				} else {
